@@ -7,6 +7,8 @@ import Sourcer.Prepare
 import Sourcer.Run
 import Sourcer.Api
 import Sourcer.Objects
+import Sourcer.Walk
+import Sourcer.Transform
 /-
   Decoding of protocol terms into model values (driver side only).
 -/
@@ -254,5 +256,87 @@ partial def printPV : PV → String
 def demoHash : HashFns :=
   { hnone := 7, hnum := fun i => i * 31 + 1, hstr := fun s => List.foldl (fun (a : Int) (c : Nat) => a * 33 + Int.ofNat c) (5381 : Int) s,
     htuple := fun hs => hs.foldl (fun a x => a * 1000003 + x) 3, combine := fun a b => a + b * 2 }
+
+end Sourcer
+
+namespace Sourcer
+open Sexp Walk
+
+partial def decodeT : Sexp → Option T
+  | .list (.atom k :: id :: cs) => do
+    let kind ← match k with
+      | "x" => some Kind.leaf
+      | "l" => some Kind.list
+      | "t" => some Kind.tuple
+      | "d" => some Kind.dict
+      | "o" => some Kind.obj
+      | _ => none
+    let cs ← cs.mapM fun c => match c with
+      | .list [lab, t] => do pure ((← lab.nat?), (← decodeT t))
+      | _ => none
+    pure (.mk kind (← id.nat?) cs)
+  | _ => none
+
+def printEvent (e : Event) : String :=
+  let o (x : Option Nat) : String := match x with
+    | some n => toString n
+    | none => "-"
+  s!"{o e.parent}:{o e.field}:{e.child}:{if e.finished then 1 else 0}"
+
+end Sourcer
+
+namespace Sourcer
+open Sexp Tr
+
+partial def decodeTV : Sexp → Option V
+  | .list [.atom "x", t] => t.nat?.map .leaf
+  | .list (.atom "l" :: xs) => (xs.mapM decodeTV).map .list
+  | .list (.atom "o" :: c :: t :: .list [.atom "pos", m] :: fs) => do
+    pure (.obj (← c.nat?) (← t.nat?) (← fs.mapM decodeTV) (some (← m.nat?)))
+  | .list (.atom "o" :: c :: t :: fs) => do pure (.obj (← c.nat?) (← t.nat?) (← fs.mapM decodeTV) none)
+  | _ => none
+
+partial def printTV : V → String
+  | .leaf t => s!"(x {t})"
+  | .list xs => "(l" ++ String.join (xs.map fun x => " " ++ printTV x) ++ ")"
+  | .obj c _ fs pm =>
+    let p := match pm with
+      | some m => s!" (pos {m})"
+      | none => ""
+    s!"(o {c}{p}" ++ String.join (fs.map fun x => " " ++ printTV x) ++ ")"
+
+/-- callbacks as data: a list of (class, action); anything else is returned as it is -/
+inductive Action where
+  | same
+  | newObj (cls : Nat) (pos : Option Nat)     -- a different object of class `cls` with the same fields
+  | toLeaf (t : Nat)
+  | wrap                                      -- `[node]`
+  | setField (i : Nat) (t : Nat)              -- `node._replace(field_i = t)`
+  | equalCopy                                 -- a distinct but equal object without metadata
+
+def decodeAction : Sexp → Option Action
+  | .atom "same" => some .same
+  | .list [.atom "new", c] => c.nat?.map fun c => .newObj c none
+  | .list [.atom "new", c, m] => do pure (.newObj (← c.nat?) (some (← m.nat?)))
+  | .list [.atom "leaf", t] => t.nat?.map .toLeaf
+  | .atom "wrap" => some .wrap
+  | .list [.atom "set", i, t] => do pure (.setField (← i.nat?) (← t.nat?))
+  | .atom "equalcopy" => some .equalCopy
+  | _ => none
+
+def mkCb (rules : List (Nat × Action)) : Cb := fun v =>
+  match v with
+  | .obj c t fs pm =>
+    match rules.find? (·.1 == c) with
+    | none => none
+    | some (_, a) =>
+      match a with
+      | .same => none
+      | .newObj c' m => some (.obj c' t fs m)
+      | .toLeaf k => some (.leaf k)
+      | .wrap => some (.list [v])
+      | .setField i k => some (.obj c t (fs.set i (.leaf k)) pm)
+      | .equalCopy => some (.obj c t fs none)
+  | _ => none
 
 end Sourcer
